@@ -856,6 +856,39 @@ def r17_7(chk, mod, params, nrows=103):
         chk.ob("R17.7", MOD, q, "the count is printed in decimal (as it is, or digit by digit in subscript characters)", okd,
                fingerprint=f"decimal:{'sub' if 'chr(' in shown.key() else 'plain'}", found=str(shown)[:160])
     chk.need(len(thresholds) >= 1, "chemical_formula: no count-formatting branch found")
+    # every element of the tally gets its block: each list that is joined into the result receives, in a loop over the counter's items,
+    # the element followed by its count text
+    from .generic import list_appends
+    from ..layout import pieces_of
+    outs, todo = [], [r.value for r in ev.returns if r.value is not None]
+    while todo:
+        t = todo.pop()
+        ta = t.as_atom()
+        if ta and ta[0] == "ite":
+            todo.extend((ta[2], ta[3]))
+        elif ta and ta[0] == "call" and call_name(ta) == ".join" and ta[2]:
+            ja = ta[2][0].as_atom()
+            if ja and ja[0] == "ite":
+                todo.extend(P.atom(("call", ta[1], (x,))) for x in (ja[2], ja[3]))
+            else:
+                outs.append(ta[2][0])
+    okblocks = bool(outs)
+    why = []
+    for o in outs:
+        oa = o.as_atom()
+        if oa and oa[0] == "obj":
+            aps = [e for e in list_appends(ev, o) if e.loops and ".items()" in (e.loops[-1].iter.key() if e.loops[-1].iter is not None else "")]
+            good = [e for e in aps if pieces_of(e.extra["args"][0]) and len([p_ for p_ in pieces_of(e.extra["args"][0]) if p_.kind == "fmt"]) == 2]
+            if not good:
+                okblocks = False
+                why.append(f"nothing is appended to {o} per element")
+        elif oa and oa[0] == "comp":
+            okblocks = okblocks and ".items()" in oa[3][0][1].key() or "zip(" in oa[3][0][1].key()
+        else:
+            okblocks = False
+            why.append(f"joined value {str(o)[:60]} not recognised")
+    chk.ob("R17.7", MOD, q, "every element of the tally contributes its block (element, then its count text) to the joined result", okblocks,
+           fingerprint="blocks", found=why[:2])
     # callers: every formula in the library comes from this one implementation
     for rel, qq in (("core/molecule.py", "Molecule.molecular_formula"), ("crystal/asymmetric_unit.py", "AsymmetricUnit.formula")):
         m2 = chk.repo.module(rel)
